@@ -104,6 +104,19 @@ CHECKS = {
              'plus nonce freshness over three successive connections.',
         note='Trusted: refs/safecookie.py, the scripted reference server in props/c04.py, os.urandom replaced by a known '
              'counter source, real cookie files under /verif/.work.'),
+    'C07': dict(
+        engine=E2, design='DESIGN.md section 4 / C07',
+        technique='explicit-state model checking: complete state graph of a reference circuit/stream life-cycle model, every '
+                  'model state reached on the real TorState both by event history and by status snapshot, every enabled event '
+                  'replayed as 650 bytes, state compared after each step',
+        text='The reference model (2 circuits x 2 streams, one path through a relay outside the consensus, id reuse, circuits '
+             'closing under attached streams, re-attachment after DETACHED) has ~10.8k reachable states and ~120k transitions; '
+             'all are enumerated. For every state the real TorState (bootstrapped over the wire against SimTor) is brought '
+             'there by the shortest event history and, where Tor could report it, by circuit-status/stream-status answers; '
+             'every enabled event is then delivered. Oracle: id sets, per-circuit state/purpose/flags/path, per-stream '
+             'state/target/source/circuit, attachment lists of every Circuit object ever created.',
+        note='Trusted: refs/tormodel.py (events control-spec documents), mc/simtor.py. For snapshot-born objects only fields '
+             'the snapshot carries are compared.'),
 }
 
 PENDING = {}
